@@ -138,6 +138,7 @@ static inline BOOL op_ne__QByteArray_cstr(QByteArray b, cstr c) { return !op_eq_
 static inline unsigned int qstrlen__cstr(cstr c) { return c.isnull ? 0u : (unsigned int)c.len; }
 static inline int qstrcmp__cstr_cstr(cstr a, cstr b) { int r = nondet_int(); __CPROVER_assume(r >= -255 && r <= 255); return r; }
 static inline int qMin__int_int(int a, int b) { return a < b ? a : b; }
+static inline unsigned long qMin__unsignedlong_unsignedlong(unsigned long a, unsigned long b) { return a < b ? a : b; }
 static inline int qMax__int_int(int a, int b) { return a < b ? b : a; }
 
 /* ------------------------------------------------------------------ QString */
@@ -152,42 +153,58 @@ typedef struct {
 } QString;
 typedef struct { int len; int id; } QLatin1String;
 /* well-formedness of the little exact content a string carries */
+#ifdef LEN_LIGHT
+/* light variant (units that need lengths only): no exact content at all */
+#define QS_CONTENT(x)
+#define QSTRING_VALID(s) ((s).len >= 0 && (s).len <= LEN_MAX)
+#else
+#define QS_CONTENT(x) x
 #define QSTRING_VALID(s) ((s).len >= 0 && (s).len <= LEN_MAX && (s).tail >= 0 && (s).tail <= (s).len && (s).wpos >= -1 && (s).wpos < (s).len \
     && ((s).len < 1 || ((s).tail > 0) == ((s).cl == MARK)) && ((s).len != 1 || (s).c0 == (s).cl) && ((s).len != 2 || (s).c1 == (s).cl) \
     && ((s).wpos != 0 || (s).c0 == g_wch) && ((s).wpos != 1 || (s).c1 == g_wch) && ((s).wpos < 0 || (s).wpos != (s).len - 1 || (s).cl == g_wch) \
     && ((s).wpos < 0 || (s).wpos < (s).len - (s).tail || g_wch == MARK) && ((s).wpos < 0 || (s).wpos != (s).len - (s).tail - 1 || g_wch != MARK) \
     && ((s).len < 1 || (s).tail != (s).len || (s).c0 == MARK) && ((s).len < 2 || (s).tail < (s).len - 1 || (s).c1 == MARK) \
     && ((s).len < 2 || (s).tail != (s).len - 1 || (s).c0 != MARK) && ((s).len < 3 || (s).tail != (s).len - 2 || (s).c1 != MARK))
+#endif
 QString nondet_QString(void);
 /* any well-formed string of the given length that does not contain the witness */
 static inline QString qs_any(int len)
-{ QString s = nondet_QString(); __CPROVER_assume(s.len == len && s.wpos == -1 && QSTRING_VALID(s)); return s; }
+{ QString s = nondet_QString(); __CPROVER_assume(s.len == len && QSTRING_VALID(s)); QS_CONTENT(__CPROVER_assume(s.wpos == -1);) return s; }
 /* ... of any length in [lo, hi] */
 static inline QString qs_any_between(int lo, int hi)
-{ QString s = nondet_QString(); __CPROVER_assume(s.len >= lo && s.len <= hi && s.wpos == -1 && QSTRING_VALID(s)); return s; }
+{ QString s = nondet_QString(); __CPROVER_assume(s.len >= lo && s.len <= hi && QSTRING_VALID(s)); QS_CONTENT(__CPROVER_assume(s.wpos == -1);) return s; }
 /* a VALUE (message text, category, file, attribute text, number text): carries the witness at g_src_wpos when that is inside it */
 static inline QString qs_value(int lo, int hi)
-{ QString s = nondet_QString(); __CPROVER_assume(s.len >= lo && s.len <= hi && QSTRING_VALID(s) && s.wpos == (g_src_wpos >= 0 && g_src_wpos < s.len ? g_src_wpos : -1)); return s; }
+{ QString s = nondet_QString(); __CPROVER_assume(s.len >= lo && s.len <= hi && QSTRING_VALID(s)); QS_CONTENT(__CPROVER_assume(s.wpos == (g_src_wpos >= 0 && g_src_wpos < s.len ? g_src_wpos : -1));) return s; }
+#ifdef LEN_LIGHT
+#define QSTRING_IS_VALUE(s) QSTRING_VALID(s)
+#else
 #define QSTRING_IS_VALUE(s) (QSTRING_VALID(s) && (s).wpos == (g_src_wpos >= 0 && g_src_wpos < (s).len ? g_src_wpos : -1))
+#endif
 
 static inline QString QString_ctor(void) { QString s; s.len = 0; s.id = 0; s.c0 = 0; s.c1 = 0; s.cl = 0; s.tail = 0; s.wpos = -1; return s; }
 /* a string literal of the source: its text is fixed (identity = the literal), it contains neither U+200B nor the witness */
 static inline QString QString_literal(int id, int len)
-{ QString s = nondet_QString(); __CPROVER_assume(s.len == len && s.id == id && s.wpos == -1 && s.tail == 0 && QSTRING_VALID(s)); return s; }
+{ QString s = nondet_QString(); __CPROVER_assume(s.len == len && s.id == id && QSTRING_VALID(s)); QS_CONTENT(__CPROVER_assume(s.wpos == -1 && s.tail == 0);) return s; }
 static inline QLatin1String QLatin1String_ctor__cstr(cstr c) { QLatin1String l; l.len = c.isnull ? 0 : c.len; l.id = c.id; return l; }
 static inline int QString_size(QString s) { return s.len; }
 static inline int QString_length(QString s) { return s.len; }
 static inline BOOL QString_isEmpty(QString s) { return s.len == 0; }
 static inline void QString_clear(QString *s) { *s = QString_ctor(); }
-static inline void QString_reserve__int(QString *s, int n) { }                       /* capacity only (A-alloc) */
+/* reserve(n) is a capacity HINT: the text does not need the memory, yet a hint above Qt's size limit throws std::bad_alloc (qBadAlloc),
+ * which nothing in the library catches: the process aborts.  (Contrast A-alloc: text that is really produced needs its memory.) */
+static inline void QString_reserve__int(QString *s, int n)
+{ __CPROVER_assert(n <= LEN_MAX, "C14 no crash: QString::reserve(n) with a hint above the QString size limit throws std::bad_alloc"); }
 static inline void QString_squeeze(QString *s) { }
 /* the code unit at position i of a well-formed string, as far as the model knows it */
 static inline unsigned short qs_unit(QString s, int i)
 {
     unsigned short u = nondet_ushort();
+#ifndef LEN_LIGHT
     if (i == 0) u = s.c0; else if (i == 1) u = s.c1; else if (i == s.len - 1) u = s.cl; else if (i == s.wpos) u = g_wch;
     else if (i >= s.len - s.tail) u = MARK;
     else if (i == s.len - s.tail - 1) __CPROVER_assume(u != MARK);
+#endif
     return u;
 }
 static inline QChar QString_at__int(QString s, int i)
@@ -204,9 +221,9 @@ static inline QString qs_drop_last(QString s, int n)
     QString r = nondet_QString();
     int L = s.len - n;
     __CPROVER_assume(r.len == L && QSTRING_VALID(r));
-    __CPROVER_assume(r.wpos == (s.wpos < L ? s.wpos : -1));
+    QS_CONTENT(__CPROVER_assume(r.wpos == (s.wpos < L ? s.wpos : -1));
     __CPROVER_assume(L < 1 || r.c0 == s.c0); __CPROVER_assume(L < 2 || r.c1 == s.c1);
-    __CPROVER_assume(n > s.tail || r.tail == s.tail - n);        /* still inside the trailing run: the rest of the run remains */
+    __CPROVER_assume(n > s.tail || r.tail == s.tail - n);)        /* still inside the trailing run: the rest of the run remains */
     return r;
 }
 /* s with its first n (1 <= n <= len) code units removed */
@@ -215,10 +232,10 @@ static inline QString qs_drop_first(QString s, int n)
     QString r = nondet_QString();
     int L = s.len - n;
     __CPROVER_assume(r.len == L && QSTRING_VALID(r));
-    __CPROVER_assume(r.wpos == (s.wpos >= n ? s.wpos - n : -1));
+    QS_CONTENT(__CPROVER_assume(r.wpos == (s.wpos >= n ? s.wpos - n : -1));
     __CPROVER_assume(L < 1 || r.cl == s.cl);
     __CPROVER_assume(n != 1 || L < 1 || r.c0 == s.c1);
-    __CPROVER_assume(r.tail == (s.tail <= L ? s.tail : L));
+    __CPROVER_assume(r.tail == (s.tail <= L ? s.tail : L));)
     return r;
 }
 static inline void QString_chop__int(QString *s, int n) { int L = qt_chop_len(s->len, n); if (L != s->len) *s = qs_drop_last(*s, s->len - L); }
@@ -253,9 +270,9 @@ static inline QString qs_concat(QString a, QString b)
     __CPROVER_assume(n <= LEN_MAX);                     /* A-alloc */
     QString r = nondet_QString();
     __CPROVER_assume(r.len == (int)n && QSTRING_VALID(r));
-    __CPROVER_assume(r.c0 == a.c0 && r.cl == b.cl && r.c1 == (a.len >= 2 ? a.c1 : b.c0));
+    QS_CONTENT(__CPROVER_assume(r.c0 == a.c0 && r.cl == b.cl && r.c1 == (a.len >= 2 ? a.c1 : b.c0));
     __CPROVER_assume(r.tail == (b.tail == b.len ? a.tail + b.len : b.tail));
-    __CPROVER_assume(r.wpos == (a.wpos >= 0 ? a.wpos : (b.wpos >= 0 ? a.len + b.wpos : -1)));
+    __CPROVER_assume(r.wpos == (a.wpos >= 0 ? a.wpos : (b.wpos >= 0 ? a.len + b.wpos : -1)));)
     return r;
 }
 static inline QString qs_char(QChar c) { QString s; s.len = 1; s.id = 0; s.c0 = c.u; s.c1 = 0; s.cl = c.u; s.tail = c.u == MARK ? 1 : 0; s.wpos = -1; return s; }
@@ -283,11 +300,16 @@ static inline QString QString_fromUtf8__QByteArray(QByteArray b) { return qs_val
 static inline QString QString_number__int(int n) { return qs_value(1, 11); }
 static inline QString QString_number__unsignedlonglong_int(unsigned long long n, int base) { return qs_value(1, 64); }
 static inline QString QString_number__double_char_int(double d, char f, int prec) { return qs_value(1, 400); }
-static inline QString QString_trimmed(QString *s) { QString r = nondet_QString(); __CPROVER_assume(r.len >= 0 && r.len <= s->len && r.wpos == -1 && QSTRING_VALID(r)); return r; }
+static inline QString QString_trimmed(QString *s) { QString r = nondet_QString(); __CPROVER_assume(r.len >= 0 && r.len <= s->len && QSTRING_VALID(r)); QS_CONTENT(__CPROVER_assume(r.wpos == -1);) return r; }
 
 /* searches */
+#ifdef LEN_LIGHT
+static inline BOOL QString_endsWith__QChar(QString s, QChar c) { return s.len > 0 && nondet_int() != 0; }
+static inline BOOL QString_startsWith__QChar(QString s, QChar c) { return s.len > 0 && nondet_int() != 0; }
+#else
 static inline BOOL QString_endsWith__QChar(QString s, QChar c) { return s.len > 0 && s.cl == c.u; }
 static inline BOOL QString_startsWith__QChar(QString s, QChar c) { return s.len > 0 && s.c0 == c.u; }
+#endif
 static inline BOOL QString_startsWith__QString(QString s, QString p) { BOOL r = nondet_int() != 0; __CPROVER_assume(!r || s.len >= p.len); if (p.len == 0) r = 1; return r; }
 static inline BOOL QString_startsWith__QLatin1String(QString s, QLatin1String p) { BOOL r = nondet_int() != 0; __CPROVER_assume(!r || s.len >= p.len); if (p.len == 0) r = 1; return r; }
 static inline BOOL QString_endsWith__QString(QString s, QString p) { BOOL r = nondet_int() != 0; __CPROVER_assume(!r || s.len >= p.len); if (p.len == 0) r = 1; return r; }
@@ -302,10 +324,12 @@ static inline BOOL QString_contains__QChar(QString s, QChar c)
 {
     BOOL r = nondet_int() != 0;
     __CPROVER_assume(!r || s.len > 0);
+#ifndef LEN_LIGHT
     if (s.len >= 1 && (s.c0 == c.u || s.cl == c.u)) r = 1;
     if (s.len >= 2 && s.c1 == c.u) r = 1;
     if (s.len == 1 && s.c0 != c.u) r = 0;
     if (s.len == 2 && s.c0 != c.u && s.c1 != c.u) r = 0;
+#endif
     QS_LITERAL_CONTAINS(s, c, r)
     return r;
 }
@@ -319,9 +343,11 @@ static inline QString *QString_remove__QChar(QString *s, QChar c)
 {
     QString r = nondet_QString();
     __CPROVER_assume(r.len >= 0 && r.len <= s->len && QSTRING_VALID(r));
+#ifndef LEN_LIGHT
     if (c.u == MARK) { __CPROVER_assume(r.len <= s->len - s->tail && r.tail == 0); }
     if (s->wpos >= 0 && g_wch != c.u) { __CPROVER_assume(r.wpos >= 0 && r.wpos <= s->wpos); }
     else { __CPROVER_assume(r.wpos == -1); }
+#endif
     *s = r; return s;
 }
 /* conversions to numbers: a function of the text */
@@ -360,8 +386,10 @@ static inline QHash_int_int_iterator QHash_int_int_find__int(QHash_int_int *h, i
 static inline QHash_int_int_iterator QHash_int_int_end(QHash_int_int *h) { QHash_int_int_iterator it; it.found = 0; it.value = 0; return it; }
 static inline BOOL QHash_int_int_iterator_op_eq__QHash_int_int_iterator(QHash_int_int_iterator a, QHash_int_int_iterator b) { return a.found == b.found; }
 static inline BOOL QHash_int_int_iterator_op_ne__QHash_int_int_iterator(QHash_int_int_iterator a, QHash_int_int_iterator b) { return a.found != b.found; }
-static inline int *QHash_int_int_iterator_value(QHash_int_int_iterator *it)
-{ __CPROVER_assert(it->found, "C14 iterator: QHash::iterator::value() needs an iterator that is not end()"); return &it->value; }
+void *malloc(__CPROVER_size_t);
+static inline int *QHash_int_int_iterator_value(QHash_int_int_iterator it)
+{ __CPROVER_assert(it.found, "C14 iterator: QHash::iterator::value() needs an iterator that is not end()");
+  int *cell = (int *)malloc(sizeof(int)); __CPROVER_assume(cell != 0); *cell = it.value; return cell; }        /* a reference to the mapped value */
 static inline int QHash_int_int_size(QHash_int_int h) { return h.n; }
 static inline QHash_int_int_iterator QHash_int_int_insert__int_int(QHash_int_int *h, int key, int value)
 { int grow = nondet_int() != 0; if (grow) { __CPROVER_assume(h->n < 0x7fffffff); h->n = h->n + 1; } QHash_int_int_iterator it; it.found = 1; it.value = value; return it; }
